@@ -1,5 +1,6 @@
 import Utv.Props.C02
 import Utv.Lemmas.Num
+import Utv.Model.C03Frag
 /-!
 C03 — idempotence; lax constraints converge in one step.
 
@@ -318,12 +319,14 @@ def KnownDefect.laxMaxDigitsCarry (w : PyVal) (m : Int) : Bool :=
   | .dec (.fin _ c e) => decide (codeDigits c e > m)
   | _ => false
 
-theorem C03_lax_max_digits_partial (P : Prims) (s : Bool) (c : Nat) (e m : Int) (w : PyVal)
-    (h : Constraints.lax_max_digits P (.dec (.fin s c e)) (.int m) = .ok w)
-    (hw : ∃ s' c' e', w = .dec (.fin s' c' e'))
-    (hk : KnownDefect.laxMaxDigitsCarry w m = false) :
-    Constraints.lax_max_digits P w (.int m) = .ok w ∧ Constraints.max_digits P w (.int m) = .ok w := by
-  obtain ⟨s', c', e', rfl⟩ := hw
+/-- what *is* true of `lax_max_digits`: any Decimal that already satisfies the strict constraint is a fixed point of the lax
+one (so a first pass that did not carry — `KnownDefect.laxMaxDigitsCarry … = false` for its output — converges in one step).
+The hypothesis is the strict form of the OUTPUT; an input-side "no carry" characterisation is not proved — the positive
+part of the `lax_max_digits` clause rests on the correspondence run and the oracle. -/
+theorem C03_lax_max_digits_fixpoint_if_strict_partial (P : Prims) (s' : Bool) (c' : Nat) (e' m : Int)
+    (hk : KnownDefect.laxMaxDigitsCarry (.dec (.fin s' c' e')) m = false) :
+    Constraints.lax_max_digits P (.dec (.fin s' c' e')) (.int m) = .ok (.dec (.fin s' c' e')) ∧
+    Constraints.max_digits P (.dec (.fin s' c' e')) (.int m) = .ok (.dec (.fin s' c' e')) := by
   have hle : codeDigits c' e' ≤ m := by simpa [KnownDefect.laxMaxDigitsCarry] using hk
   constructor
   · unfold Constraints.lax_max_digits
@@ -353,12 +356,79 @@ theorem C03_lax_after_strict_witness (P : Prims) :
     validate P [("gt", .int 3), ("lax_multiple_of", .int 3)] (.int 3) = .error .valueError := by
   constructor <;> rfl
 
-/-- the defect needs a second constraint: a declaration whose only constraint is lax is idempotent
-(the per-constraint fixed-point theorems above); stated for the validator loop on a one-element list. -/
-theorem C03_single_lax_idempotent_partial (P : Prims) (name : String) (b v w : PyVal) (f : Validator)
+/-- the validator loop on a one-constraint list is that validator (helper) -/
+theorem single_lax_of_fixpoint (P : Prims) (name : String) (b v w : PyVal) (f : Validator)
     (hf : validatorOf name = some f) (h1 : f P v b = .ok w) (hfix : f P w b = .ok w) :
     validate P [(name, b)] v = .ok w ∧ validate P [(name, b)] w = .ok w := by
   simp [validate, hf, h1, hfix, bind, Except.bind, pure, Except.pure]
+
+/-- a declaration whose only constraint is `multiple_of = Lax(m)` on ints is idempotent and its output satisfies the strict form -/
+theorem C03_validate_single_lax_multiple_of (P : Prims) (a m : Int) (hm : m ≠ 0) :
+    ∃ w : Int, validate P [("lax_multiple_of", .int m)] (.int a) = .ok (.int w) ∧
+      validate P [("lax_multiple_of", .int m)] (.int w) = .ok (.int w) ∧
+      validate P [("multiple_of", .int m)] (.int w) = .ok (.int w) := by
+  obtain ⟨w, h1, h2, h3⟩ := C03_lax_multiple_of_fixpoint P a m hm
+  refine ⟨w, ?_, ?_, ?_⟩
+  · exact (single_lax_of_fixpoint P _ _ _ _ _ rfl h1 h2).1
+  · exact (single_lax_of_fixpoint P _ _ _ _ _ rfl h1 h2).2
+  · simp [validate, validatorOf, h3, bind, Except.bind, pure, Except.pure]
+
+/-- … and with only `ge = Lax(b)` on any mix of numbers -/
+theorem C03_validate_single_lax_ge (P : Prims) (v b : PyVal) (hv : Numeric v) (hb : Numeric b) :
+    ∃ w, validate P [("lax_ge", b)] v = .ok w ∧ validate P [("lax_ge", b)] w = .ok w ∧ validate P [("ge", b)] w = .ok w := by
+  obtain ⟨w, h1, h2, h3⟩ := C03_lax_ge_fixpoint P v b hv hb
+  refine ⟨w, (single_lax_of_fixpoint P _ _ _ _ _ rfl h1 h2).1, (single_lax_of_fixpoint P _ _ _ _ _ rfl h1 h2).2, ?_⟩
+  simp [validate, validatorOf, h3, bind, Except.bind, pure, Except.pure]
+
+/-- two Lax constraints (known finding `lax-result-not-revalidated`): `ge = Lax(4), multiple_of = Lax(3)` takes 2 to 4 and then
+to 3, which violates `ge = 4`; the output of the declaration does not satisfy its own first constraint -/
+theorem C03_two_lax_witness (P : Prims) :
+    validate P [("lax_ge", .int 4), ("lax_multiple_of", .int 3)] (.int 2) = .ok (.int 3) ∧
+    Constraints.ge P (.int 3) (.int 4) = .error .valueError ∧
+    validate P [("lax_ge", .int 4), ("lax_multiple_of", .int 3)] (.int 3) = .ok (.int 3) := by
+  refine ⟨?_, ?_, ?_⟩ <;> rfl
+
+/-- `lax_ge` / `lax_le` on strings (lexicographic order): fixed point and strict form -/
+theorem C03_lax_ge_le_str (P : Prims) (s b : String) :
+    (∃ w, Constraints.lax_ge P (.str s) (.str b) = .ok w ∧ Constraints.lax_ge P w (.str b) = .ok w ∧ Constraints.ge P w (.str b) = .ok w) ∧
+    (∃ w, Constraints.lax_le P (.str s) (.str b) = .ok w ∧ Constraints.lax_le P w (.str b) = .ok w ∧ Constraints.le P w (.str b) = .ok w) := by
+  constructor
+  · rw [lax_ge_val P _ _ _ (lt_str s b)]
+    by_cases h : s < b
+    · refine ⟨.str b, by simp [h], ?_, ?_⟩
+      · rw [lax_ge_val P _ _ _ (lt_str b b)]; simp [String.lt_irrefl]
+      · rw [C02_ge_iff]; simp [Py.ge, Py.le, String.lt_irrefl, bind, Except.bind, pure, Except.pure]
+    · refine ⟨.str s, by simp [h], ?_, ?_⟩
+      · rw [lax_ge_val P _ _ _ (lt_str s b)]; simp [h]
+      · rw [C02_ge_iff]
+        simp only [Py.ge, Py.le, lt_str, eq_str, bind, Except.bind, pure, Except.pure, Except.ok.injEq, and_true]
+        by_cases h2 : b < s
+        · simp [h2]
+        · have : b = s := String.le_antisymm (String.not_lt.mp h) (String.not_lt.mp h2)
+          simp [this]
+  · have hgt : Py.gt (.str s) (.str b) = .ok (decide (b < s)) := by simp [Py.gt]
+    rw [lax_le_val P _ _ _ hgt]
+    by_cases h : b < s
+    · refine ⟨.str b, by simp [h], ?_, ?_⟩
+      · have : Py.gt (.str b) (.str b) = .ok (decide (b < b)) := by simp [Py.gt]
+        rw [lax_le_val P _ _ _ this]; simp [String.lt_irrefl]
+      · rw [C02_le_iff]; simp [Py.le, String.lt_irrefl, bind, Except.bind, pure, Except.pure]
+    · refine ⟨.str s, by simp [h], ?_, ?_⟩
+      · rw [lax_le_val P _ _ _ hgt]; simp [h]
+      · rw [C02_le_iff]
+        simp only [Py.le, lt_str, eq_str, bind, Except.bind, pure, Except.pure, Except.ok.injEq, and_true]
+        by_cases h2 : s < b
+        · simp [h2]
+        · have : s = b := String.le_antisymm (String.not_lt.mp h) (String.not_lt.mp h2)
+          simp [this]
+
+/-- `decimal_places = Lax(d)` on an int (`round(i, d)`, `d ≥ 0`): the int itself, a fixed point that satisfies the strict form -/
+theorem C03_lax_decimal_places_int (P : Prims) (i d : Int) (hd : 0 ≤ d) :
+    Constraints.lax_decimal_places P (.int i) (.int d) = .ok (.int i) ∧
+    Constraints.decimal_places P (.int i) (.int d) = .ok (.int i) := by
+  constructor
+  · simp [Constraints.lax_decimal_places, Py.round, asInt?, hd, bind, Except.bind, pure, Except.pure]
+  · exact C02_decimal_places_int P i d hd
 
 /-! ### container types with item types: every declared constraint holds on the RESULT, and the result re-parses
 
@@ -372,14 +442,15 @@ def PostPreserving (d : Decl) : Prop := ∀ x y, d.post x = .ok y → y = x
 
 open Utv.C02D in
 /-- **the result satisfies every declared constraint** — length / unique / … validators and the contains family are
-checked on the converted, packed value `w`, and `w` is what is returned -/
-theorem C03_result_satisfies_constraints (P : Prims) (d : Decl) (v r : PyVal)
+checked on the converted, packed value `w`, and `w` is what is returned (validators: any of the twelve input-preserving
+strict ones, `C02_preserving_of_name`; `const`, `decimal_places` and `Lax(...)` declarations are outside this theorem) -/
+theorem C03_result_satisfies_constraints_core (P : Prims) (d : Decl) (v r : PyVal)
     (hp : ∀ c ∈ d.validators, ∃ f, validatorOf c.1 = some f ∧ Preserving f) (hpost : PostPreserving d)
-    (h : parseTyped P d v = .ok r) :
+    (h : parseCore P d v = .ok r) :
     applyArgs d v = .ok r ∧
     (∀ c ∈ d.validators, ∃ f, validatorOf c.1 = some f ∧ f P r c.2 = .ok r) ∧
     ContainsHolds d.acc d.cont r ∧ d.post r = .ok r := by
-  unfold parseTyped at h
+  unfold parseCore at h
   cases ha : applyArgs d v with
   | error e => simp [ha, bind, Except.bind] at h
   | ok w =>
@@ -399,19 +470,110 @@ theorem C03_result_satisfies_constraints (P : Prims) (d : Decl) (v r : PyVal)
         exact ⟨rfl, hall, hch, h⟩
 
 open Utv.C02D in
-/-- **… and therefore re-parses to itself** as soon as converting and packing it again gives it back (items of the item
-type convert to themselves, a container of the origin class packs to itself) -/
-theorem C03_container_reparse (P : Prims) (d : Decl) (v r : PyVal)
+/-- the same for the whole parse of a type that is not hidden (`@utype.apply`) and whose `pre_validate` hands the value on -/
+theorem C03_result_satisfies_constraints (P : Prims) (d : Decl) (v r : PyVal)
+    (hpre : d.pre v = .ok v) (happ : d.applied = false)
     (hp : ∀ c ∈ d.validators, ∃ f, validatorOf c.1 = some f ∧ Preserving f) (hpost : PostPreserving d)
-    (h : parseTyped P d v = .ok r) (hfix : applyArgs d r = .ok r) :
-    parseTyped P d r = .ok r := by
-  obtain ⟨_, hall, hch, hpo⟩ := C03_result_satisfies_constraints P d v r hp hpost h
-  unfold parseTyped
+    (h : parseTyped P d v = .ok r) :
+    applyArgs d v = .ok r ∧
+    (∀ c ∈ d.validators, ∃ f, validatorOf c.1 = some f ∧ f P r c.2 = .ok r) ∧
+    ContainsHolds d.acc d.cont r ∧ d.post r = .ok r := by
+  rw [parseTyped_eq_core P d v hpre happ] at h
+  exact C03_result_satisfies_constraints_core P d v r hp hpost h
+
+open Utv.C02D in
+/-- **… and therefore re-parses to itself** as soon as converting and packing it again gives it back (`hfix`; discharged
+below for item converters that take items of the item type as they are, `applyArgs_fix_*`) -/
+theorem C03_container_reparse_core (P : Prims) (d : Decl) (v r : PyVal)
+    (hp : ∀ c ∈ d.validators, ∃ f, validatorOf c.1 = some f ∧ Preserving f) (hpost : PostPreserving d)
+    (h : parseCore P d v = .ok r) (hfix : applyArgs d r = .ok r) :
+    parseCore P d r = .ok r := by
+  obtain ⟨_, hall, hch, hpo⟩ := C03_result_satisfies_constraints_core P d v r hp hpost h
+  unfold parseCore
   simp only [hfix, bind, Except.bind]
   have hv : validate P d.validators r = .ok r := (C02_validate_iff P d.validators r r hp).mpr ⟨hall, rfl⟩
   simp only [hv]
   have hc : parseContains d.acc d.cont r = .ok r := (C02_contains_iff d.acc d.cont r r).mpr ⟨hch, rfl⟩
   simp only [hc, hpo]
+
+open Utv.C02D in
+theorem C03_container_reparse (P : Prims) (d : Decl) (v r : PyVal)
+    (hpre : ∀ x, d.pre x = .ok x) (happ : d.applied = false)
+    (hp : ∀ c ∈ d.validators, ∃ f, validatorOf c.1 = some f ∧ Preserving f) (hpost : PostPreserving d)
+    (h : parseTyped P d v = .ok r) (hfix : applyArgs d r = .ok r) :
+    parseTyped P d r = .ok r := by
+  rw [parseTyped_eq_core P d v (hpre v) happ] at h
+  rw [parseTyped_eq_core P d r (hpre r) happ]
+  exact C03_container_reparse_core P d v r hp hpost h hfix
+
+/-! #### `hfix` discharged: an item converter that takes values of the item type as they are, a container that packs to itself -/
+
+/-- converting a sequence item by item with a converter that is the identity on the items present gives the sequence back -/
+theorem mapM_id_of_fix (conv : PyVal → M PyVal) : ∀ xs : List PyVal, (∀ x ∈ xs, conv x = .ok x) → xs.mapM conv = .ok xs := by
+  intro xs
+  induction xs with
+  | nil => intro _; rfl
+  | cons x xs ih =>
+    intro h
+    rw [List.mapM_cons, h x (by simp), ih (fun y hy => h y (by simp [hy]))]
+    rfl
+
+/-- every output of a successful `mapM` is the image of some input -/
+theorem mem_mapM_ok (conv : PyVal → M PyVal) : ∀ (xs ys : List PyVal), xs.mapM conv = .ok ys →
+    ∀ y ∈ ys, ∃ x, x ∈ xs ∧ conv x = .ok y := by
+  intro xs
+  induction xs with
+  | nil => intro ys h y hy; simp [List.mapM_nil, pure, Except.pure] at h; subst h; cases hy
+  | cons x xs ih =>
+    intro ys h y hy
+    rw [List.mapM_cons] at h
+    cases hx : conv x with
+    | error e => simp [hx, bind, Except.bind] at h
+    | ok x' =>
+      cases hm : xs.mapM conv with
+      | error e => simp [hx, hm, bind, Except.bind] at h
+      | ok ys' =>
+        simp only [hx, hm, bind, Except.bind, pure, Except.pure, Except.ok.injEq] at h
+        subst h
+        rcases List.mem_cons.mp hy with rfl | hy'
+        · exact ⟨x, by simp, hx⟩
+        · obtain ⟨z, hz, hc⟩ := ih ys' hm y hy'
+          exact ⟨z, by simp [hz], hc⟩
+
+open Utv.C02D in
+/-- the item-wise args parser of a sequence type (rule.py `_parse_seq_args`): every item through the item type's parse -/
+def seqArgs (conv : PyVal → M PyVal) (v : PyVal) : M PyVal :=
+  match v with
+  | .seq k xs => do pure (.seq k (← xs.mapM conv))
+  | _ => throw .typeError
+
+open Utv.C02D in
+/-- **for a list / tuple type**: if the item type's parse is idempotent (its outputs are fixed points) then so is the
+conversion-and-packing step of the container: `applyArgs d r = .ok r` for every output `r` -/
+theorem applyArgs_fix_seq (d : Decl) (conv : PyVal → M PyVal) (k : Cls) (v r : PyVal)
+    (hk : k = .list ∨ k = .tuple)
+    (hargs : d.args = some (seqArgs conv)) (hpack : d.pack = Py.construct k)
+    (hidem : ∀ x y, conv x = .ok y → conv y = .ok y)
+    (h : applyArgs d v = .ok r) : applyArgs d r = .ok r := by
+  unfold applyArgs at h ⊢
+  simp only [hargs, hpack, bind, Except.bind] at h ⊢
+  cases v with
+  | seq k' xs =>
+    simp only [seqArgs, bind, Except.bind, pure, Except.pure] at h
+    cases hm : xs.mapM conv with
+    | error e => simp [hm] at h
+    | ok ys =>
+      simp only [hm] at h
+      have hys : ∀ y ∈ ys, conv y = .ok y := by
+        intro y hy
+        obtain ⟨x, _, hx⟩ := mem_mapM_ok conv xs ys hm y hy
+        exact hidem x y hx
+      have hr : r = .seq k ys := by
+        rcases hk with rfl | rfl <;> simp [Py.construct, Py.iter, bind, Except.bind, pure, Except.pure] at h <;> exact h.symm
+      subst hr
+      simp only [seqArgs, bind, Except.bind, pure, Except.pure, mapM_id_of_fix conv ys hys]
+      rcases hk with rfl | rfl <;> simp [Py.construct, Py.iter, bind, Except.bind, pure, Except.pure]
+  | _ => simp [seqArgs, throw, throwThe, MonadExceptOf.throw] at h
 
 open Utv.C02D in
 /-- the `Set[int]`, `min_length = 2` example: `[1, '1']` converts to `[1, 1]`, packs to `{1}`, and is **rejected** (the
@@ -426,5 +588,144 @@ theorem C03_set_min_length_example (P : Prims) :
     parseTyped P d (.seq .list [.int 1, .str "2"]) = .ok (.seq .set [.int 1, .int 2]) ∧
     parseTyped P d (.seq .set [.int 1, .int 2]) = .ok (.seq .set [.int 1, .int 2]) := by
   refine ⟨?_, ?_, ?_⟩ <;> rfl
+
+/-! ### whole-type idempotence on the fragment where it holds (induction on the type), and Lean witnesses that it is
+false by design for `|`, `&`, `^` -/
+
+section Fragment
+open Utv.C03F Utv.C02D
+
+/-- the declarations of the fragment: constraint lists over the twelve input-preserving strict validators, containers are
+lists or tuples -/
+def WFTy : Ty → Prop
+  | .plain _ cs => ∀ c ∈ cs, c.1 ∈ strictPreservingNames
+  | .seq k item cs => (k = .list ∨ k = .tuple) ∧ (∀ c ∈ cs, c.1 ∈ strictPreservingNames) ∧ WFTy item
+
+theorem toCls_typed (C : Conv) (c : Cls) (v w : PyVal) (h : toCls C c v = .ok w) : typeOf w = c := by
+  unfold toCls at h
+  by_cases ht : (typeOf v == c) = true
+  · simp only [ht, if_true, pure, Except.pure, Except.ok.injEq] at h
+    subst h; simpa using ht
+  · simp only [ht] at h
+    exact C.typed c v w h
+
+theorem toCls_fix (C : Conv) (c : Cls) (w : PyVal) (h : typeOf w = c) : toCls C c w = .ok w := by
+  simp [toCls, h, pure, Except.pure]
+
+theorem seq_of_typeOf (w : PyVal) (k : Cls) (hk : k = .list ∨ k = .tuple) (h : typeOf w = k) : ∃ xs, w = .seq k xs := by
+  cases w <;> simp [typeOf] at h <;> rcases hk with rfl | rfl <;> simp_all
+
+/-- **parsing is idempotent on the fragment**: plain origins and strict rules over the twelve input-preserving constraints,
+lists and tuples of such types nested to any depth, with constraint lists of their own — for every converter family whose
+outputs have the class asked for, every input, every `Prims`: the result of a successful parse re-parses to itself -/
+theorem C03_parse_idempotent (P : Prims) (C : Conv) : ∀ (T : Ty), WFTy T → ∀ v r, parse P C T v = .ok r → parse P C T r = .ok r
+  | .plain c cs, hwf, v, r, h => by
+    simp only [parse, bind, Except.bind] at h ⊢
+    cases hw : toCls C c v with
+    | error e => simp [hw] at h
+    | ok w =>
+      simp only [hw] at h
+      obtain ⟨hall, rfl⟩ := (C02_validate_iff_names P cs w r hwf).mp h
+      rw [toCls_fix C c r (toCls_typed C c v r hw)]
+      exact h
+  | .seq k item cs, hwf, v, r, h => by
+    obtain ⟨hk, hcs, hitem⟩ := hwf
+    simp only [parse, bind, Except.bind] at h ⊢
+    cases hw : toCls C k v with
+    | error e => simp [hw] at h
+    | ok w =>
+      simp only [hw] at h
+      obtain ⟨xs, rfl⟩ := seq_of_typeOf w k hk (toCls_typed C k v w hw)
+      simp only at h
+      cases hm : xs.mapM (parse P C item) with
+      | error e => simp [hm] at h
+      | ok ys =>
+        simp only [hm] at h
+        obtain ⟨hall, rfl⟩ := (C02_validate_iff_names P cs (.seq k ys) r hcs).mp h
+        have hfix : ∀ y ∈ ys, parse P C item y = .ok y := by
+          intro y hy
+          obtain ⟨x, _, hx⟩ := mem_mapM_ok (parse P C item) xs ys hm y hy
+          exact C03_parse_idempotent P C item hitem x y hx
+        rw [toCls_fix C k (.seq k ys) rfl]
+        simp only [mapM_id_of_fix (parse P C item) ys hfix]
+        exact h
+
+/-- non-vacuity: a converter family with the law (here: only exact classes convert), a nested well-formed type
+`List[Tuple[Rule[int](ge=0, le=10), ...]](max_length=2)`, and a parse that succeeds -/
+example (P : Prims) :
+    let C : Conv := ⟨fun c v => if typeOf v == c then .ok v else .error .typeError, by
+      intro c v r h
+      by_cases ht : (typeOf v == c) = true
+      · simp [ht] at h; subst h; simpa using ht
+      · simp [ht] at h⟩
+    let T : Ty := .seq .list (.seq .tuple (.plain .int [("ge", .int 0), ("le", .int 10)]) []) [("max_length", .int 2)]
+    WFTy T ∧ parse P C T (.seq .list [.seq .tuple [.int 1, .int 10]]) = .ok (.seq .list [.seq .tuple [.int 1, .int 10]]) ∧
+      parse P C T (.seq .list [.seq .tuple [.int 11]]) = .error .valueError := by
+  refine ⟨?_, rfl, rfl⟩
+  simp [WFTy, strictPreservingNames]
+
+/-- `~A` is idempotent for every member parser (the input itself is returned) -/
+theorem C03_neg_idempotent (m : PyVal → M PyVal) (v r : PyVal) (h : negParse m v = .ok r) : negParse m r = .ok r := by
+  unfold negParse at h ⊢
+  cases hm : m v with
+  | ok x => simp [hm, throw, throwThe, MonadExceptOf.throw] at h
+  | error e =>
+    simp only [hm, pure, Except.pure, Except.ok.injEq] at h
+    subst h
+    simp [hm, pure, Except.pure]
+
+/-- the exact-type shortcut of a union (rule.py:385-387) makes a result whose class is a plain member final -/
+theorem C03_union_exact_idempotent (ms : List Member) (stages : List Nat) (r : PyVal)
+    (h : ms.any (fun m => m.exact r) = true) : unionParse ms stages r = .ok r := by
+  simp [unionParse, h, pure, Except.pure]
+
+/-- a union whose winning member is the FIRST one is idempotent when that member is (a later member can never overtake it) -/
+theorem C03_union_first_member_idempotent (p : Nat → PyVal → M PyVal) (others : List Member) (i : Nat) (rest : List Nat)
+    (v r : PyVal) (hex : ∀ w, (Member.rule p :: others).any (fun m => m.exact w) = false)
+    (hidem : ∀ x y, p i x = .ok y → p i y = .ok y)
+    (h : p i v = .ok r) :
+    unionParse (.rule p :: others) (i :: rest) v = .ok r ∧ unionParse (.rule p :: others) (i :: rest) r = .ok r := by
+  constructor <;> simp [unionParse, hex, tryStages, tryMembers, Member.run, h, hidem v r h, pure, Except.pure]
+
+/-! #### false by design: every member idempotent, the combination not (known findings `union-winner-differs`,
+`allof-threading`, `xor-result-reaccepted`) -/
+
+/-- members over ints: `a` takes 1 ↦ 2 and 2 ↦ 2, `b` takes 0 ↦ 1 and 1 ↦ 1 (both idempotent) -/
+def wA : PyVal → M PyVal := fun v => match v with | .int 1 => .ok (.int 2) | .int 2 => .ok (.int 2) | _ => .error .valueError
+def wB : PyVal → M PyVal := fun v => match v with | .int 0 => .ok (.int 1) | .int 1 => .ok (.int 1) | _ => .error .valueError
+
+/-- **union**: `(A | B)(0) = 1` through `B` (A refuses 0), but `(A | B)(1) = 2`: the earlier member takes the result -/
+theorem C03_union_winner_differs_witness :
+    (∀ x y, wA x = .ok y → wA y = .ok y) ∧ (∀ x y, wB x = .ok y → wB y = .ok y) ∧
+    unionParse [.rule (fun _ => wA), .rule (fun _ => wB)] [0, 1, 2] (.int 0) = .ok (.int 1) ∧
+    unionParse [.rule (fun _ => wA), .rule (fun _ => wB)] [0, 1, 2] (.int 1) = .ok (.int 2) := by
+  refine ⟨?_, ?_, rfl, rfl⟩
+  · intro x y h; unfold wA at h; split at h <;> simp at h <;> subst h <;> rfl
+  · intro x y h; unfold wB at h; split at h <;> simp at h <;> subst h <;> rfl
+
+/-- members: `c` takes 0 ↦ 1, 1 ↦ 1 and refuses 2; `d` takes 1 ↦ 2, 2 ↦ 2 -/
+def wC : PyVal → M PyVal := fun v => match v with | .int 0 => .ok (.int 1) | .int 1 => .ok (.int 1) | _ => .error .valueError
+def wD : PyVal → M PyVal := fun v => match v with | .int 1 => .ok (.int 2) | .int 2 => .ok (.int 2) | _ => .error .valueError
+
+/-- **conjunction**: `(C & D)(0) = D(C(0)) = 2`, and re-parsing 2 fails at `C` -/
+theorem C03_allof_threading_witness :
+    (∀ x y, wC x = .ok y → wC y = .ok y) ∧ (∀ x y, wD x = .ok y → wD y = .ok y) ∧
+    allParse [wC, wD] (.int 0) = .ok (.int 2) ∧ allParse [wC, wD] (.int 2) = .error .valueError := by
+  refine ⟨?_, ?_, rfl, rfl⟩
+  · intro x y h; unfold wC at h; split at h <;> simp at h <;> subst h <;> rfl
+  · intro x y h; unfold wD at h; split at h <;> simp at h <;> subst h <;> rfl
+
+/-- member `e` takes only 1 ↦ 1 -/
+def wE : PyVal → M PyVal := fun v => match v with | .int 1 => .ok (.int 1) | _ => .error .valueError
+
+/-- **exactly-one**: `(C ^ E)(0) = 1` (only `C` accepts 0), and re-parsing 1 fails because both accept it -/
+theorem C03_xor_result_reaccepted_witness :
+    (∀ x y, wC x = .ok y → wC y = .ok y) ∧ (∀ x y, wE x = .ok y → wE y = .ok y) ∧
+    xorParse [wC, wE] (.int 0) = .ok (.int 1) ∧ xorParse [wC, wE] (.int 1) = .error .valueError := by
+  refine ⟨?_, ?_, rfl, rfl⟩
+  · intro x y h; unfold wC at h; split at h <;> simp at h <;> subst h <;> rfl
+  · intro x y h; unfold wE at h; split at h <;> simp at h <;> subst h <;> rfl
+
+end Fragment
 
 end Utv.C03
